@@ -14,6 +14,7 @@ import (
 	"fmt"
 	"os"
 	"strings"
+	"time"
 
 	regexp2 "github.com/dlclark/regexp2/v2"
 	"github.com/dlclark/regexp2/v2/syntax"
@@ -38,6 +39,7 @@ type RelRec struct {
 	Exact   bool      `json:"exact"`
 	Variant string    `json:"variant"`
 	Mode    string    `json:"mode"` // FindNextStartingPositionMode of A
+	HasG    bool      `json:"hasg"` // the pattern text contains \G (its origin moves with the start offset)
 	Cases   []RelCase `json:"cases"`
 }
 
@@ -246,7 +248,10 @@ func init() {
 		stream := fs.Uint64("stream", 1, "PRNG stream")
 		variant := fs.String("variant", "naive", "naive|norewrite|codegen|nobitmap")
 		profile := fs.String("profile", "fragment", "fragment|wide|accel")
-		caseFile := fs.String("case", "", "replay: JSON list of {p,o,dia,rtl,exact,variant,s}")
+		caseFile := fs.String("case", "", "replay: JSON list of {p,o,dia,rtl,exact,variant,s} (p empty: text is the pattern)")
+		harvest := fs.String("harvest", "", "profile harvest: repository root whose *_test.go string literals are the patterns")
+		hstride := fs.Int("hstride", 1, "profile harvest: take every hstride-th literal (long pattern-like ones are always taken) ...")
+		hoffset := fs.Int("hoffset", 0, "... starting at this one")
 		fs.Parse(args)
 
 		w := bufio.NewWriterSize(os.Stdout, 1<<20)
@@ -272,6 +277,7 @@ func init() {
 				Exact   bool     `json:"exact"`
 				Variant string   `json:"variant"`
 				S       []int    `json:"s"`
+				Text    string   `json:"text"`
 			}
 			data, err := os.ReadFile(*caseFile)
 			if err == nil {
@@ -282,7 +288,13 @@ func init() {
 				return 2
 			}
 			for i, c := range cs {
-				text := PrintPat(c.P, PrintOpts{X: has(c.O, "x"), RE2: c.Dia == "re2"})
+				text := c.Text
+				if len(c.P) > 0 {
+					text = PrintPat(c.P, PrintOpts{X: has(c.O, "x"), RE2: c.Dia == "re2"})
+				}
+				if c.P == nil {
+					c.P = Pat{}
+				}
 				reA, err := compile(text, optBits(c.O, c.Dia, c.RTL))
 				if err != nil {
 					fmt.Fprintln(os.Stderr, "compile error:", err)
@@ -293,8 +305,70 @@ func init() {
 					fmt.Fprintln(os.Stderr, "compile error (variant):", err)
 					return 2
 				}
-				rec := RelRec{ID: i + 1, P: c.P, O: c.O, Dia: c.Dia, RTL: c.RTL, Text: text, Exact: c.Exact, Variant: c.Variant, Mode: findMode(reA), Cases: []RelCase{relCase(reA, reB, c.S)}}
+				rec := RelRec{ID: i + 1, P: c.P, O: c.O, Dia: c.Dia, RTL: c.RTL, Text: text, Exact: c.Exact, Variant: c.Variant, Mode: findMode(reA), HasG: strings.Contains(text, `\G`), Cases: []RelCase{relCase(reA, reB, c.S)}}
 				enc.Encode(rec)
+			}
+			return 0
+		}
+
+		if *profile == "harvest" {
+			// patterns harvested from the repository's own tests: relational only (there is no source tree for them)
+			g := &Gen{r: newRand(seedFromEnv(), *stream), c: cfgC01()}
+			lits := harvestLiterals(*harvest)
+			compileErrs, cases, skipped, taken := 0, 0, 0, 0
+			modes := map[string]int{}
+			for i, l := range lits {
+				always := len(l) >= 25 && (strings.Contains(l, "\\") || strings.Contains(l, "(?") || strings.Contains(l, "["))
+				if !always && i%*hstride != *hoffset%*hstride {
+					continue
+				}
+				dia := "net"
+				isRTL := *rtl == "yes" || (*rtl == "both" && g.chance(0.3))
+				reA, err := compile(l, optBits(nil, dia, isRTL))
+				if err != nil {
+					dia = "re2"
+					if reA, err = compile(l, optBits(nil, dia, isRTL)); err != nil {
+						compileErrs++
+						continue
+					}
+				}
+				reB, err := compileVariant(*variant, l, optBits(nil, dia, isRTL), reA)
+				if err != nil {
+					compileErrs++
+					continue
+				}
+				// catastrophic patterns of the timeout tests: bounded by a short timeout, then dropped by the cost guard
+				reA.MatchTimeout, reB.MatchTimeout = 4*time.Millisecond, 4*time.Millisecond
+				taken++
+				rec := RelRec{ID: taken, P: Pat{}, O: []string{}, Dia: dia, RTL: isRTL, Text: l, Exact: false, Variant: *variant, Mode: findMode(reA), HasG: strings.Contains(l, `\G`), Cases: []RelCase{}}
+				modes[rec.Mode]++
+				inputs := derivedInputs(l)
+				for d := 1; d <= 3; d++ {
+					if i+d < len(lits) && len(lits[i+d]) <= 60 {
+						inputs = append(inputs, lits[i+d])
+					}
+				}
+				for _, in := range inputs {
+					rs := []rune(in)
+					if len(rs) > 40 {
+						continue
+					}
+					if cheapest(func() { reB.FindRunesMatch(rs) }) > 60_000 {
+						skipped++
+						continue
+					}
+					rec.Cases = append(rec.Cases, relCase(reA, reB, runesToInts(rs)))
+					cases += len(rs) + 1
+				}
+				if err := enc.Encode(rec); err != nil {
+					fmt.Fprintln(os.Stderr, err)
+					return 2
+				}
+			}
+			ms, _ := json.Marshal(modes)
+			fmt.Fprintf(os.Stderr, "record-rel: variant=%s harvested=%d not-a-pattern=%d cases=%d heavy_inputs_skipped=%d modes=%s\n", *variant, taken, compileErrs, cases, skipped, ms)
+			if taken == 0 {
+				return 2
 			}
 			return 0
 		}
@@ -340,7 +414,7 @@ func init() {
 				fmt.Fprintf(os.Stderr, "compile error (variant): %q %v: %v\n", text, o, err)
 				continue
 			}
-			rec := RelRec{ID: id, P: p, O: o, Dia: dia, RTL: isRTL, Text: text, Exact: exact && !(*profile == "accel" && strings.Contains(text, `\G`) && false), Variant: *variant, Mode: findMode(reA), Cases: []RelCase{}}
+			rec := RelRec{ID: id, P: p, O: o, Dia: dia, RTL: isRTL, Text: text, Exact: exact && !(*profile == "accel" && strings.Contains(text, `\G`) && false), Variant: *variant, Mode: findMode(reA), HasG: strings.Contains(text, `\G`), Cases: []RelCase{}}
 			modes[rec.Mode]++
 			for _, s := range g.Inputs(t, *ni, *maxLen, alpha) {
 				in := intsToRunes(s)
